@@ -280,3 +280,13 @@ def algo_streams(rng, fs, tier, which=("cf", "lm", "bel", "bin", "sbin", "fp")):
         if ops:
             out.append(("comp-" + k, ops))
     return out
+
+
+def apf_streams(streams, names=("g-hard", "g-ties", "g-exp", "g-random", "g-mixed", "g-marker")):
+    """pipeline tie: the API streams again as `apf` ops (same call; the model column is Model.ParseFloatAlgo:
+    syntax -> try_fast_path -> moderate_path -> slow_path -> to_native, slow_radix replaced by the oracle)"""
+    out = []
+    for name, ops in streams:
+        if name in names:
+            out.append(("pipe-" + name[2:], ["apf" + o[2:] for o in ops if o.startswith("pf ")]))
+    return out
